@@ -17,7 +17,7 @@ import (
 func init() {
 	fw.Register(&fw.Check{
 		ID: "C15", Level: "model_checking",
-		Rule: "descriptions: ALL texts of 1..3 (quick) / 1..4 (thorough) lines over a line alphabet {empty, a, indented 1/2/tab, inner blanks, trailing blank, '# a', '(x)', 'x)', keyword-looking words inside a line} x line end {LF, CRLF, CR} x every description host (INFO, HTTP method, JSON-RPC method, TAG) x {bare, parenthesised} x base indentation {2, 4, tab}: catalog text = reference normalisation of the generator's text, bare = parenthesised, blank text rejected, normalising the result again changes nothing (hooked normaliser); annotations: ALL texts of length 0..4 (quick) / 0..5 (thorough) over {a, space, tab, *, /, ., newline} on every annotation-bearing directive in the // and /* */ spellings: catalog annotation = reference whitespace collapse, both spellings equal; non-trivial = text with more than one line / with a blank or delimiter character; distinct = distinct (host, spelling, text)",
+		Rule: "descriptions: ALL texts of 1..3 (quick) / 1..4 (thorough) lines over a line alphabet {empty, a, indented 1/2/tab, inner blanks, trailing blank, '# a', '(x)', 'x)', keyword-looking words inside a line} x line end {LF, CRLF, CR} x every description host (INFO, HTTP method, JSON-RPC method, TAG) x what follows the description (texts of <= 2 lines: every kind of next line of that host - sibling, directive of an enclosing block, bare keywords of every length, end of input) x {bare, parenthesised} x base indentation {2, 4, tab}: catalog text = reference normalisation of the generator's text, bare = parenthesised, blank text rejected, normalising the result again changes nothing (hooked normaliser); annotations: ALL texts of length 0..4 (quick) / 0..5 (thorough) over {a, space, tab, *, /, ., newline} on every annotation-bearing directive in the // and /* */ spellings: catalog annotation = reference whitespace collapse, both spellings equal; non-trivial = text with more than one line / with a blank or delimiter character; distinct = distinct (host, spelling, text)",
 		Assume: []string{"not judged (the sentence leaves them open): whitespace-only lines inside a text, trailing blanks of the last line, texts a bare spelling cannot express (lines starting with a keyword, a response code or a parenthesis)"},
 		Run:    runC15, QuickCap: 8 * time.Minute, ThoroughCap: 40 * time.Minute,
 	})
@@ -63,6 +63,7 @@ type descHost struct {
 	name string
 	doc  func(descBlock string) string // descBlock is the rendered Description directive at indentation 1 level ("  ")
 	get  func(cat *jsonx.V) *jsonx.V
+	alt  bool // an alternative terminator: explored against texts of at most two lines
 }
 
 func descHosts() []descHost {
@@ -73,17 +74,46 @@ func descHosts() []descHost {
 		}
 		return v.Vals[0]
 	}
-	return []descHost{
+	hosts := []descHost{
 		{"INFO", func(d string) string { return "JSIGHT 0.3\nINFO\n  Title \"T\"\n" + d + "TYPE @after any\n" },
-			func(c *jsonx.V) *jsonx.V { return c.Path("info", "description") }},
+			func(c *jsonx.V) *jsonx.V { return c.Path("info", "description") }, false},
 		{"HTTP", func(d string) string { return "JSIGHT 0.3\nGET /h\n" + d + "  200 any\n" },
-			func(c *jsonx.V) *jsonx.V { return first(c, "interactions").Get("description") }},
+			func(c *jsonx.V) *jsonx.V { return first(c, "interactions").Get("description") }, false},
 		{"RPC", func(d string) string {
 			return "JSIGHT 0.3\nURL /r\n  Protocol json-rpc-2.0\n  Method m\n" + strings.ReplaceAll(d, "\n  ", "\n    ")[0:0] + indentBlock(d, "  ") + "    Params\n      {}\n"
-		}, func(c *jsonx.V) *jsonx.V { return first(c, "interactions").Get("description") }},
+		}, func(c *jsonx.V) *jsonx.V { return first(c, "interactions").Get("description") }, false},
 		{"TAG", func(d string) string { return "JSIGHT 0.3\nTAG @g\n" + d + "GET /t\n  Tags @g\n  200 any\n" },
-			func(c *jsonx.V) *jsonx.V { return c.Path("tags", "@g", "description") }},
+			func(c *jsonx.V) *jsonx.V { return c.Path("tags", "@g", "description") }, false},
 	}
+	// what follows the description ("terminator"): every kind of line that may come next in that
+	// host - a sibling, a directive of an enclosing block, a bare keyword of every length, a
+	// comment-free end of input. Explored against the shorter texts (deviation bound).
+	alt := func(name, prefix string, descIndent string, get func(c *jsonx.V) *jsonx.V, terms ...string) {
+		for i, t := range terms {
+			t := t
+			hosts = append(hosts, descHost{fmt.Sprintf("%s/next%d", name, i), func(d string) string { return prefix + indentBlock(d, descIndent) + t }, get, true})
+		}
+	}
+	httpGet := func(c *jsonx.V) *jsonx.V {
+		if in := c.Get("interactions"); in != nil {
+			if e := in.Get("http GET /h"); e != nil {
+				return e.Get("description")
+			}
+		}
+		return nil
+	}
+	alt("HTTP-in-URL", "JSIGHT 0.3\nURL /h\n  GET\n", "  ", httpGet,
+		"    200 any\n", "  PUT\n", "  PUT\n    200 any\n", "  POST // note\n", "  PATCH\n", "  DELETE\n    204 empty\n", "    Query\n      {}\n",
+		"    Request any\n", "TYPE @after any\n", "GET /other\n  200 any\n", "URL /other\n", "", "    404 any\n    200 any\n")
+	alt("HTTP-top", "JSIGHT 0.3\nGET /h\n", "", httpGet,
+		"  Request any\n", "POST /h\n", "ENUM @e\n  [1]\n", "TAG @x\n", "", "SERVER @s\n  BaseUrl \"http://x\"\n", "MACRO @m\n(\n  200 any\n)\n")
+	alt("INFO", "JSIGHT 0.3\nINFO\n  Title \"T\"\n", "", func(c *jsonx.V) *jsonx.V { return c.Path("info", "description") },
+		"  Version 1\n", "", "GET /x\n  200 any\n", "URL /x\n", "TAG @x\n")
+	alt("TAG", "JSIGHT 0.3\nTAG @g\n", "", func(c *jsonx.V) *jsonx.V { return c.Path("tags", "@g", "description") },
+		"TAG @h\n", "  TAG @sub\n", "", "URL /t\n  GET\n    200 any\n", "PUT /t\n")
+	alt("RPC", "JSIGHT 0.3\nURL /r\n  Protocol json-rpc-2.0\n  Method m\n", "  ", func(c *jsonx.V) *jsonx.V { return first(c, "interactions").Get("description") },
+		"    Result\n      {}\n", "  Method n\n", "", "TYPE @after any\n", "URL /r2\n  Protocol json-rpc-2.0\n  Method k\n")
+	return hosts
 }
 
 func indentBlock(block, by string) string {
@@ -175,6 +205,9 @@ func runC15(c *fw.Ctx) {
 					continue // line-end variants with the default indentation only
 				}
 				for _, h := range hosts {
+					if h.alt && (len(lines) > 2 || base != "    ") {
+						continue
+					}
 					if !c.Next() {
 						continue
 					}
